@@ -11,7 +11,7 @@ package operations
 //@   property C10
 //@   safety C10
 //@   requires o != nil && opsReady(o) && opsIdle(o)
-//@   modifies *, driveHeld, mutexHeld[addr(o.diskOperationLock)], tapeWrites, indexWrites, ghosts(C04)
+//@   modifies *, driveHeld, mutexHeld[addr(o.diskOperationLock)], tapeWrites, indexWrites, ghosts(C04), ghosts(C08)
 //@   ensures [drive-free] !driveHeld
 //@   ensures [ops-free] !mutexHeld[addr(o.diskOperationLock)]
 
@@ -19,7 +19,7 @@ package operations
 //@   property C10
 //@   safety C10
 //@   requires o != nil && opsReady(o) && opsIdle(o)
-//@   modifies *, driveHeld, mutexHeld[addr(o.diskOperationLock)], tapeWrites, indexWrites, ghosts(C04)
+//@   modifies *, driveHeld, mutexHeld[addr(o.diskOperationLock)], tapeWrites, indexWrites, ghosts(C04), ghosts(C08)
 //@   ensures [drive-free] !driveHeld
 //@   ensures [ops-free] !mutexHeld[addr(o.diskOperationLock)]
 
@@ -29,7 +29,7 @@ package operations
 //@   property C10
 //@   safety C10
 //@   requires o != nil && opsReady(o) && opsIdle(o)
-//@   modifies *, driveHeld, mutexHeld[addr(o.diskOperationLock)], ghosts(C04)
+//@   modifies *, driveHeld, mutexHeld[addr(o.diskOperationLock)], ghosts(C04), ghosts(C08)
 //@   ensures [drive-free] !driveHeld
 //@   ensures [ops-free] !mutexHeld[addr(o.diskOperationLock)]
 
@@ -37,7 +37,7 @@ package operations
 //@   property C10
 //@   safety C10
 //@   requires o != nil && opsReady(o) && opsIdle(o) && getSrc != nil
-//@   modifies *, driveHeld, mutexHeld[addr(o.diskOperationLock)], tapeWrites, indexWrites, ghosts(C04)
+//@   modifies *, driveHeld, mutexHeld[addr(o.diskOperationLock)], tapeWrites, indexWrites, ghosts(C04), ghosts(C08)
 //@   ensures [drive-free] !driveHeld
 //@   ensures [ops-free] !mutexHeld[addr(o.diskOperationLock)]
 
@@ -45,14 +45,14 @@ package operations
 //@   property C10
 //@   safety C10
 //@   requires o != nil && opsReady(o) && !driveHeld && getSrc != nil
-//@   modifies *, driveHeld, tapeWrites, indexWrites, ghosts(C04)
+//@   modifies *, driveHeld, tapeWrites, indexWrites, ghosts(C04), ghosts(C08)
 //@   ensures [drive-free] !driveHeld
 
 //@ func (*Operations).Update
 //@   property C10
 //@   safety C10
 //@   requires o != nil && opsReady(o) && opsIdle(o) && getSrc != nil
-//@   modifies *, driveHeld, mutexHeld[addr(o.diskOperationLock)], tapeWrites, indexWrites, ghosts(C04)
+//@   modifies *, driveHeld, mutexHeld[addr(o.diskOperationLock)], tapeWrites, indexWrites, ghosts(C04), ghosts(C08)
 //@   ensures [drive-free] !driveHeld
 //@   ensures [ops-free] !mutexHeld[addr(o.diskOperationLock)]
 
@@ -60,6 +60,46 @@ package operations
 //@   property C10
 //@   safety C10
 //@   requires o != nil && opsReady(o) && opsIdle(o)
-//@   modifies *, driveHeld, mutexHeld[addr(o.diskOperationLock)], tapeWrites, indexWrites, ghosts(C04)
+//@   modifies *, driveHeld, mutexHeld[addr(o.diskOperationLock)], tapeWrites, indexWrites, ghosts(C04), ghosts(C08)
 //@   ensures [drive-free] !driveHeld
 //@   ensures [ops-free] !mutexHeld[addr(o.diskOperationLock)]
+
+//@ func (*Operations).Delete$2
+//@   property C08
+//@   conforms HeaderSubst
+//@   modifies *, hdrVerified[hdr], hdrSubstituted[hdr]
+//@   ghostset hdrSubstituted[hdr] := result == nil
+
+//@ func (*Operations).Delete$3
+//@   property C08
+//@   conforms NoopVerifier
+
+//@ func (*Operations).Move$2
+//@   property C08
+//@   conforms HeaderSubst
+//@   modifies *, hdrVerified[hdr], hdrSubstituted[hdr]
+//@   ghostset hdrSubstituted[hdr] := result == nil
+
+//@ func (*Operations).Move$3
+//@   property C08
+//@   conforms NoopVerifier
+
+//@ func (*Operations).Update$2
+//@   property C08
+//@   conforms HeaderSubst
+//@   modifies *, hdrVerified[hdr], hdrSubstituted[hdr]
+//@   ghostset hdrSubstituted[hdr] := result == nil
+
+//@ func (*Operations).Update$3
+//@   property C08
+//@   conforms NoopVerifier
+
+//@ func (*Operations).archive$2
+//@   property C08
+//@   conforms HeaderSubst
+//@   modifies *, hdrVerified[hdr], hdrSubstituted[hdr]
+//@   ghostset hdrSubstituted[hdr] := result == nil
+
+//@ func (*Operations).archive$3
+//@   property C08
+//@   conforms NoopVerifier
